@@ -26,7 +26,7 @@ Fixpoint nodup_b (l : list N) : bool :=
   match l with [] => true | x :: t => negb (existsb (N.eqb x) t) && nodup_b t end.
 
 Definition case_wf (k : case) : bool :=
-  forallb (fun q => uri_wf_b (r_uri (q_req q))) (g_reqs (k_cfg k))
+  forallb e2e_req_ok (g_reqs (k_cfg k))
   && nodup_b (map q_id (g_reqs (k_cfg k)))
   && nodup_b (map fst (g_conns (k_cfg k)))
   && sched_ok echo_handler (k_cfg k) (k_sched k).
